@@ -144,6 +144,14 @@ CHECKS = {
         "Trusted: the 25-line reference merge (pbt/props/c18_chained.py:reference_merge), Fraction arithmetic.",
         "DESIGN.md §4 C18",
     ),
+    "C11": (
+        "metamorphic PBT: paired fits on a base sample and on exact re-encodings of it (row permutation, index "
+        "relabelling, exact affine maps, order-preserving category renamings), outputs compared as row partitions",
+        "Generated tie-rich samples with exactly representable values; 1-3 re-encodings per case (2-4 fits); the set "
+        "of kept features and the partition of identity-tracked rows (train and dev) must be identical. Exploration.",
+        "Trusted: Fraction check that every affine image is exact; first-occurrence factorisation for partitions.",
+        "DESIGN.md §4 C11",
+    ),
     "C04": (
         "PBT with a reference oracle: table-first generated samples, transform(X_train) compared with the "
         "mapping recomputed from values_orders (list+content) only; metamorphic string-form probe",
